@@ -249,7 +249,7 @@ PROPS = {
     "C19": {
         "module": ["GoatProofs.C19", "GoatProofs.C19R"],
         "theorems": ["Goat.C19R.decode_none_iff", "Goat.C19R.decode_total", "Goat.C19R.decode_encode", "Goat.C19R.truncated_final_record", "Goat.C19R.truncated_withdrawal_header_rejected", "Goat.C19R.decode_length_bounds", "Goat.C19R.amounts_reach_every_value", "Goat.C19R.unknown_type_rejected", "Goat.C19R.empty_item_rejected", "Goat.C19R.too_many_items_rejected", "Goat.C19R.decode_encode_grant_false", "Goat.C19R.decode_encode_grant_mod", "Goat.C19R.decode_encode_withdrawal_false", "Goat.C19R.withdrawal_empty_address_last_rejected",
-                     "Goat.C19.commitTx_failed", "Goat.C19.failed_msg_changes_nothing", "Goat.C19.failed_tx_changes_nothing",
+                     "Goat.C19.commitTx_failed", "Goat.C19.failed_msg_changes_nothing", "Goat.C19.failed_tx_changes_nothing", "Goat.C19.failed_last_tx_block_same", "Goat.C19.failed_txs_can_be_dropped",
                      "Goat.C19.ante_rejects_before_handler", "Goat.C19.readonly_ops"],
         "streams": [{"name": "reqdecode", "quick": 3000, "thorough": 40000, "seeds": 8}, {"name": "app-malformed", "quick": 900, "thorough": 6000, "seeds": 12, "quick_seeds": 2}, {"name": "app", "quick": 700, "thorough": 4000, "seeds": 6},
                     {"name": "app-proposal", "quick": 700, "thorough": 5000, "seeds": 8, "quick_seeds": 4}, {"name": "relayer", "quick": 1200, "thorough": 8000, "seeds": 6}],
